@@ -95,7 +95,50 @@ type hsample struct {
 	conns []int32
 }
 
+// loadMonitor: an independent probe of the machine, running next to the histories: a goroutine sleeps 5 ms at a time and
+// records how late it wakes up; a history during which it woke up more than 4 ms late was run on an overloaded machine
+type loadMonitor struct {
+	mu      sync.Mutex
+	at      []time.Time
+	late    []time.Duration
+	stopped chan struct{}
+}
+
+func startLoadMonitor() *loadMonitor {
+	m := &loadMonitor{stopped: make(chan struct{})}
+	go func() {
+		for {
+			select {
+			case <-m.stopped:
+				return
+			default:
+			}
+			t0 := time.Now()
+			time.Sleep(5 * time.Millisecond)
+			l := time.Since(t0) - 5*time.Millisecond
+			m.mu.Lock()
+			m.at = append(m.at, t0)
+			m.late = append(m.late, l)
+			m.mu.Unlock()
+		}
+	}()
+	return m
+}
+
+func (m *loadMonitor) overloaded(from, to time.Time) bool {
+	m.mu.Lock()
+	defer m.mu.Unlock()
+	for i := len(m.at) - 1; i >= 0 && !m.at[i].Before(from.Add(-10*time.Millisecond)); i-- {
+		if m.at[i].Before(to) && m.late[i] > 4*time.Millisecond {
+			return true
+		}
+	}
+	return false
+}
+
 func TestVerifHealth(t *testing.T) {
+	mon := startLoadMonitor()
+	defer close(mon.stopped)
 	out := vopen(t, "health")
 	defer out.close()
 	r := &vrng{vseed()*32452843 + 5}
@@ -133,7 +176,12 @@ func TestVerifHealth(t *testing.T) {
 				loadedTries, tries := 0, 0
 				for try := 0; try < 3; try++ {
 					var clean bool
+					hStart := time.Now()
 					res, clean = healthHistory(seeds[i], peers)
+					during := mon.overloaded(hStart, time.Now())
+					if during {
+						clean = false // run on an overloaded machine: re-made like a noisy history
+					}
 					// a millisecond-level judgement (how long Handle kept retrying) is re-made like a noisy history
 					for _, f := range res.fails {
 						if strings.HasPrefix(f[0], "retry-") {
@@ -152,7 +200,7 @@ func TestVerifHealth(t *testing.T) {
 						time.Sleep(20 * time.Millisecond)
 						late = max(late, time.Since(t0)-20*time.Millisecond)
 					}
-					if late > 4*time.Millisecond {
+					if late > 4*time.Millisecond || during {
 						loadedTries++
 					}
 				}
